@@ -8,6 +8,7 @@ import Qvnt.Lemmas.Queue
 import Qvnt.Lemmas.GenInt.int_branch_eq
 import Qvnt.Lemmas.GenInt.int_get_c_idx_eq
 import Qvnt.Lemmas.GenInt.MacrosDisjoint
+import Qvnt.Lemmas.GenInt.MacrosInv
 import Qvnt.Lemmas.GenInt.int_process_node_apply_eq
 
 set_option linter.unusedSectionVars false
@@ -17,7 +18,7 @@ variable {R : Type}
 section proc
 variable [Add R] [Sub R] [Mul R] [Neg R] [Div R] [ExprFns R] [AngleFns R]
 
-theorem int_process_if_eq [Zero R] [One R] [Consts R] (s c : Interp R) (hd : MacrosDisjoint s c)
+theorem int_process_if_eq [Zero R] [One R] [Consts R] (s c : Interp R) (hd : MacrosInv s c)
     (lhs : String) (rhs : Nat) (body : Inner R) :
     int_process_if s c lhs rhs body = (Interp.processNode s c (.ifn lhs rhs body)).toE := by
   unfold int_process_if
